@@ -39,12 +39,25 @@ def load(mods):
             importlib.import_module(m)
             LOADED.append(m)
     SPEC_ENV.update({k: getattr(native, k) for k in dir(native) if not k.startswith("_")})
+    mods_ = []
     for path in api.SPEC_FILES:
         name = "spec." + os.path.splitext(os.path.basename(path))[0]
         mod = importlib.import_module(name)
+        mods_.append(mod)
         for k in dir(mod):
             if not k.startswith("_"):
                 SPEC_ENV[k] = getattr(mod, k)
+    # the repo classes the clauses name (Fragment.empty, Mark.none, ...)
+    for cname, info in api.CLASSES.items():
+        try:
+            SPEC_ENV.setdefault(cname, getattr(importlib.import_module(info.file[:-3].replace("/", ".")), cname))
+        except Exception:  # noqa: BLE001
+            pass
+    # spec functions call each other across spec files: share the vocabulary
+    for mod in mods_:
+        for k, v in SPEC_ENV.items():
+            if not hasattr(mod, k):
+                setattr(mod, k, v)
 
 
 class _OldLift(ast.NodeTransformer):
@@ -88,8 +101,15 @@ def snap(v):
     return v
 
 
+IN_SPEC = [0]  # > 0 while a contract clause is being evaluated: wrappers are transparent then
+
+
 def ev(code, env):
-    return eval(code, {"__builtins__": __builtins__, **SPEC_ENV, **env})
+    IN_SPEC[0] += 1
+    try:
+        return eval(code, {"__builtins__": __builtins__, **SPEC_ENV, **env})
+    finally:
+        IN_SPEC[0] -= 1
 
 
 FN_OWNER: dict = {}
@@ -195,6 +215,8 @@ def check_call(key, fn, args, kwargs, strict_pre=True):
 
 
 HITS: dict = {}
+CHECKED: dict = {}
+SAMPLE = [0, 1]  # (check every call up to this count, then every k-th); 0 = check every call
 _INSTALLED: dict = {}
 
 
@@ -208,7 +230,12 @@ def install(keys, on_violation=None):
 
         def make(key=key, fn=fn):
             def wrapper(*a, **kw):
-                HITS[key] = HITS.get(key, 0) + 1
+                if IN_SPEC[0]:
+                    return fn(*a, **kw)  # called from inside a specification clause
+                n_ = HITS[key] = HITS.get(key, 0) + 1
+                if SAMPLE[0] and n_ > SAMPLE[0] and n_ % SAMPLE[1]:
+                    return fn(*a, **kw)  # hot function: every SAMPLE[1]-th call is checked after the first SAMPLE[0]
+                CHECKED[key] = CHECKED.get(key, 0) + 1
                 try:
                     return check_call(key, fn, a, kw)
                 except PreconditionFailed as p:
